@@ -71,6 +71,8 @@ def load(R):
     R.contract(P + "put_memento", assumed=True, types={"self": MS, "memento": M},
                ensures=["self.writes == old(self.writes) + 1", "KEY(memento) in self.mementos", "same(self.mementos[KEY(memento)], memento)",
                         "forall(str, lambda k: implies(k != KEY(memento), (k in self.mementos) == old(k in self.mementos) and same(self.mementos[k], old(self.mementos[k]))))"],
+               # an I/O fault: the memento dictionary is unchanged (the link is published last and atomically -- proved for _FilesystemDataSource.output under C08)
+               raises={"OSError+": ["self.writes >= old(self.writes)", "forall(str, lambda k: (k in self.mementos) == old(k in self.mementos) and same(self.mementos[k], old(self.mementos[k])))"]},
                modifies=["self.mementos", "self.writes"])
     R.contract(P + "forget_call", assumed=True, types={"self": MS, "fn_with_arg_hash": FWH},
                ensures=["self.writes == old(self.writes) + 1", "HK(fn_with_arg_hash) not in self.mementos",
@@ -91,7 +93,8 @@ def load(R):
                ensures=["same(result, LOADED(data_source, result_type, key))"],
                notes="assumed at this level: load returns the object stored under that version (pickle round trip is a bounded stand-in); BlobStrategy.store is proved under C07")
     R.contract("storage_base:Codec.store", assumed=True, types={"self": CO, "result_type": RT, "data_source": DS, "key_override": TOpt(TStr), "obj": TObj()}, returns=TOpt(VKey),
-               raises={"OSError+": []},
+               raises={"OSError+": ["data_source.writes >= old(data_source.writes)",
+                                    "forall(VersionedDataSourceKey, lambda v: implies(old(v in data_source.values), v in data_source.values and same(data_source.values[v], old(data_source.values[v]))))"]},
                ensures=["data_source.writes >= old(data_source.writes)",
                         "READABLE(data_source, result_type, result)", "EQV(LOADED(data_source, result_type, result), None if same(result_type, ResultType.null) else obj)",
                         # versions are immutable: whatever could be read before reads the same afterwards (C07)
@@ -121,7 +124,9 @@ def load(R):
                         # C07: every version readable before is readable, with the same content, afterwards
                         "[C07] forall(VersionedDataSourceKey, lambda v: implies(old(v in self._data_source.values), v in self._data_source.values and same(self._data_source.values[v], old(self._data_source.values[v]))))",
                         ],
-               raises={"OSError+": [], "AssertionError": ["False"]})
+               # C08: an I/O fault anywhere in the write leaves every stored memento readable; so does a crash between the interface calls
+               raises={"OSError+": ["[C08] STORE_OK(self)"], "AssertionError": ["False"]},
+               labels={"step_invariant": ["[C08] STORE_OK(self)"]})
 
     R.spec("CURRENT", ["b", "m"], "KEY(m) in b._metadata_source.mementos and same(b._metadata_source.mementos[KEY(m)], m)")
     R.spec("DS_SAME", ["b"], "b._data_source.writes == old(b._data_source.writes) "
